@@ -108,6 +108,14 @@ def leave(kind, arg):
             raise SystemExit(n)
         if flavour == 'nested':
             _nested_exit(n)
+        # exit statuses that are integers without being plain ints
+        if flavour == 'intenum':
+            import enum
+            sys.exit(enum.IntEnum('ExitCode', {'CODE': n}).CODE)
+        if flavour == 'intsub':
+            sys.exit(type('Status', (int,), {})(n))
+        if flavour == 'bool':
+            sys.exit(bool(n))
         raise RuntimeError('unknown sysexit flavour')
     if kind == 'selfsig':
         _no_core()
